@@ -3,6 +3,8 @@ package processor
 //gosx:file init=github.com/free5gc/chf/cdr/asn replay=engine
 
 import (
+	"time"
+
 	"github.com/fiorix/go-diameter/diam/datatype"
 
 	charging_datatype "github.com/free5gc/chf/ccs_diameter/datatype"
@@ -41,7 +43,7 @@ func ZZ_C19_LateAnswers() {
 	vx.Scheduler(2)
 	vx.Config("sched.timersFire", true)
 
-	peer := vx.Choice("peer", 2)
+	peer := vx.Choice("peer", 3)
 	sub := &charging_datatype.SubscriptionId{SubscriptionIdType: charging_datatype.END_USER_IMSI, SubscriptionIdData: datatype.UTF8String(zzSupi[5:])}
 	if peer == 0 {
 		mk := func(n uint32) *charging_datatype.AccountDebitRequest {
@@ -66,10 +68,27 @@ func ZZ_C19_LateAnswers() {
 		return
 	}
 	mk := func(rg uint32) *charging_datatype.ServiceUsageRequest {
-		return &charging_datatype.ServiceUsageRequest{SessionId: datatype.UTF8String("s" + string(rune('0'+rg))), SubscriptionId: sub,
+		return &charging_datatype.ServiceUsageRequest{SessionId: datatype.UTF8String("s" + string(rune('0'+rg))), SubscriptionId: sub, ActualTime: datatype.Time(time.Now()),
 			ServiceRating: &charging_datatype.ServiceRating{ServiceIdentifier: datatype.Unsigned32(rg), RequestSubType: charging_datatype.REQ_SUBTYPE_RESERVE, MonetaryQuota: 100}}
 	}
 	zzAccount(zzSupi, 2, 1000000, 3)
+	if peer == 2 {
+		// one request object, stamped when it is built, serves consecutive
+		// rating requests of the same operation (as the processor does for the
+		// tariff lookup, the reservation and the second tariff lookup): the
+		// first answer is lost or late, the following requests meet a prompt peer
+		sur := mk(1)
+		_, errA := rating.SendServiceUsageRequest(ue, sur)
+		_ = errA
+		vx.Tag("stale", len(ue.RatingChan) > 0)
+		vx.DeliverLateAnswers()
+		vx.Config("diam.answerMayBeLate", false)
+		vx.Config("diam.answerMayBeLost", false)
+		vx.Config("sched.timersFire", false)
+		rspB, errB := rating.SendServiceUsageRequest(ue, sur)
+		vx.Assert("the next rating request built from the same request object completes with an answer", errB == nil && rspB != nil)
+		return
+	}
 	_, err1 := rating.SendServiceUsageRequest(ue, mk(1))
 	_ = err1
 	vx.Tag("stale", len(ue.RatingChan) > 0)
